@@ -289,33 +289,28 @@ def rule_R1(text, log):
     return "\n".join(out)
 
 
-def rule_R2(text, log):
-    """`P1 | P2 if g => e`  ->  `P1 if g => e, P2 if g => e`  (single-line or multi-line arm
-    whose expression is a block or a simple expression ending with ','). Only applied to
-    arms whose pattern contains a top-level '|' AND a guard."""
+def rule_R2(text, log, struct_name="Error"):
+    """guard on a fieldless-enum field turned into a pattern:
+         `P1(e) | P2(e) if e.f == Enum::V => body`   (body does not mention e)
+      -> `P1(S { f: Enum::V, .. }) | P2(S { f: Enum::V, .. }) => body`
+    For a fieldless enum with derived PartialEq, `x == Enum::V` holds iff the pattern `Enum::V`
+    matches x, so arm selection is unchanged. (Verus rejects or-pattern + guard in one arm.)"""
     masked = mask_comments_and_strings(text)
-    rx = re.compile(r"^([ \t]*)([^\n=]*?\S)\s*\|\s*([^\n=|]*?\S)\s+if\s+([^\n]*?)\s*=>\s*", re.M)
-    pos = 0
+    rx = re.compile(r"^([ \t]*)([^\n]*?\S)\s+if\s+(\w+)\.(\w+)\s*==\s*((?:\w+::)+\w+)\s*=>", re.M)
     out = []
-    while True:
-        m = rx.search(masked, pos)
-        if not m:
-            out.append(text[pos:])
-            break
-        indent = m.group(1)
-        p1 = text[m.start(2):m.end(2)]
-        p2 = text[m.start(3):m.end(3)]
-        g = text[m.start(4):m.end(4)]
-        # arm expression
+    pos = 0
+    for m in rx.finditer(masked):
+        pats, binder, field, const = text[m.start(2):m.end(2)], m.group(3), m.group(4), m.group(5)
+        alts = [a.strip() for a in pats.split("|")]
+        if not all(re.search(r"\(%s\)" % re.escape(binder), a) for a in alts):
+            continue
+        # body extent: block or expression up to ',' at depth 0
         e0 = m.end()
+        while masked[e0] in " \t\n":
+            e0 += 1
         if masked[e0] == "{":
             e1 = match_close(masked, e0) + 1
-            expr = text[e0:e1]
-            tail = e1
-            if masked[tail:tail + 1] == ",":
-                tail += 1
         else:
-            # up to the ',' at depth 0
             depth, k = 0, e0
             while True:
                 ch = masked[k]
@@ -328,12 +323,15 @@ def rule_R2(text, log):
                 elif ch == "," and depth == 0:
                     break
                 k += 1
-            expr = text[e0:k]
-            tail = k + 1 if masked[k] == "," else k
-        out.append(text[pos:m.start()])
-        out.append("%s%s if %s => %s,\n%s%s if %s => %s," % (indent, p1, g, expr, indent, p2, g, expr))
-        log.append("R2 split or-pattern with guard: %s | %s if %s" % (p1.strip(), p2.strip(), g.strip()))
-        pos = tail
+            e1 = k
+        if re.search(r"\b%s\b" % re.escape(binder), masked[e0:e1]):
+            raise AnchorLost("R2: arm body uses the guard binder `%s`" % binder)
+        newpats = " | ".join(re.sub(r"\(%s\)" % re.escape(binder), "(%s { %s: %s, .. })" % (struct_name, field, const), a) for a in alts)
+        out.append(text[pos:m.start(2)])
+        out.append(newpats + " =>")
+        pos = m.end()
+        log.append("R2 guard -> pattern: %s if %s.%s == %s" % (pats.strip(), binder, field, const))
+    out.append(text[pos:])
     return "".join(out)
 
 
